@@ -83,6 +83,10 @@ func c03Cases() []c03Case {
 		out = append(out, c03Case{12, "s", "cert", "ecdsa", false, false, policy, "resume-after-unfinished-key-exchange"})
 	}
 	for _, ver := range []int{12, 13} {
+		// the client names the server by its IP address
+		out = append(out, c03Case{ver, "c", "cert", "ecdsa", true, false, 0, "ip-name:none"})
+		out = append(out, c03Case{ver, "c", "cert", "ecdsa", true, false, 0, "ip-name:wrong-name"})
+		out = append(out, c03Case{ver, "c", "cert", "ecdsa", true, false, 0, "ip-name:other-ip"})
 		out = append(out, c03Case{ver, "c", "cert", "ecdsa", true, false, 0, "expires-between-connections"})
 		out = append(out, c03Case{ver, "s", "cert", "ecdsa", false, false, 4, "expires-between-connections"})
 		out = append(out, c03Case{ver, "s", "cert", "ecdsa", false, false, 3, "expires-between-connections"})
@@ -172,10 +176,12 @@ func c03MustFail(p *C03Params) bool {
 		return true
 	}
 	switch p.Dev {
-	case "none":
+	case "none", "ip-name:none":
 		return false
 	case "wrong-psk", "wrong-identity":
 		return true
+	case "ip-name:wrong-name", "ip-name:other-ip":
+		return p.Verify
 	}
 	sigLevel := p.Dev == "other-key" || p.Dev == "sig-flip" || p.Dev == "sig-other-digest" || p.Dev == "scheme-confusion"
 	if p.Dev == "no-server-auth" || p.Dev == "cert-without-verify" {
@@ -297,6 +303,15 @@ func c03Run(rc *RunCtx, params any) {
 		spec, role = &cspec, "cli"
 	}
 	switch p.Dev {
+	case "ip-name:none":
+		// control: the server's certificate carries an iPAddress SAN for the address the client names
+		cspec.ServerName, sspec.Cert = "10.0.0.2", "srv-ip"
+	case "ip-name:wrong-name":
+		// a certificate from the right CA for some other (DNS) name
+		cspec.ServerName, sspec.Cert = "10.0.0.2", "srv-wrongname"
+	case "ip-name:other-ip":
+		// the client names another address than the one the certificate is for
+		cspec.ServerName, sspec.Cert = "10.0.0.77", "srv-ip"
 	case "ack-instead-of-auth":
 		// credentials stay genuine; the deviation is in what gets sent (see below)
 		cspec.Cert = leafName("cli", p.KeyKind)
@@ -471,7 +486,7 @@ func c03Run(rc *RunCtx, params any) {
 		}
 	}
 	if !mustFail {
-		if p.Dev == "none" && !p.Callback && p.Rules.DropPm == 0 {
+		if (p.Dev == "none" || p.Dev == "ip-name:none") && !p.Callback && p.Rules.DropPm == 0 {
 			if !(pair.BothOK()) {
 				rc.Violate("control-failed", "no deviation, yet the handshake failed: client %v, server %v (oracle would be vacuous)", pair.CHs.Err, pair.SHs.Err)
 			} else {
